@@ -165,6 +165,9 @@ func (f *ftrans) expr(e ast.Expr) *val {
 		case token.INT:
 			return &val{t: tUntyped, cv: constant.MakeFromLiteral(x.Value, x.Kind, 0)}
 		case token.STRING:
+			if x.Value == `""` {
+				return &val{t: tString, term: "[]", cv: constant.MakeInt64(0)} // the empty string, as a byte list
+			}
 			return &val{t: tString, str: true}
 		}
 		f.p.bad(e, "literal %s", x.Value)
@@ -188,7 +191,7 @@ func (f *ftrans) expr(e ast.Expr) *val {
 		return f.composite(x)
 	case *ast.StarExpr:
 		v := f.expr(x.X)
-		if v.fields == nil {
+		if v.fields == nil && !(v.term != "" && (v.t.k == kList || structName(v.t) != "")) {
 			f.p.bad(e, "dereference of a non-struct pointer")
 		}
 		return v
@@ -310,6 +313,23 @@ func (f *ftrans) binary(x *ast.BinaryExpr) *val {
 		return f.shift(x, a)
 	}
 	b := f.expr(x.Y)
+	// s == "" / s != "" for a string carried as a byte list
+	if (x.Op == token.EQL || x.Op == token.NEQ) && a.t.k == kString && b.t.k == kString {
+		o := a
+		if a.cv != nil && a.term == "[]" {
+			o = b
+		} else if !(b.cv != nil && b.term == "[]") {
+			f.p.bad(x, "comparison of two strings (only comparison with \"\" is in the fragment)")
+		}
+		if o.term == "" {
+			f.p.bad(x, "comparison of a string whose content is not tracked")
+		}
+		s := fmt.Sprintf("(llen %s =? 0%%Z)%%Z", atom(o.term))
+		if x.Op == token.NEQ {
+			s = "negb " + s
+		}
+		return &val{t: tBool, term: s}
+	}
 	// comparison of a []byte receiver field with nil
 	if (x.Op == token.EQL || x.Op == token.NEQ) && (a.t.k == kNil || b.t.k == kNil) {
 		o := a
@@ -547,6 +567,11 @@ func (f *ftrans) index(x *ast.IndexExpr) *val {
 		}
 		return &val{t: et, term: f.bind(fmt.Sprintf("lget %s %s", atom(base.term), atom(f.toZ(i, x.Index))))}
 	}
+	if base.t.k == kList && base.term != "" {
+		f.needMonadic(x, "an index expression")
+		i := f.expr(x.Index)
+		return &val{t: base.t.elem, term: f.bind(fmt.Sprintf("lget %s %s", atom(base.term), atom(f.toZ(i, x.Index))))}
+	}
 	if base.t.k != kBytes || !base.isSlice {
 		f.p.bad(x, "indexing a value of type %s", base.t)
 	}
@@ -665,7 +690,17 @@ func (f *ftrans) peekConst(e ast.Expr) (c constant.Value) {
 }
 
 func (f *ftrans) selector(x *ast.SelectorExpr) *val {
+	// alias.C : a constant of an imported package
+	if id, ok := x.X.(*ast.Ident); ok && f.p.imported[id.Name] && !f.env.has(id.Name) {
+		if c, ok := f.p.consts[id.Name+"."+x.Sel.Name]; ok {
+			return constVal(c)
+		}
+		f.p.bad(x, "%s.%s is not a constant of the imported package", id.Name, x.Sel.Name)
+	}
 	base := f.expr(x.X)
+	if _, isRec := recordOf(base.t); isRec && base.fields == nil && base.term != "" {
+		return f.recProj(base, x.Sel.Name, x)
+	}
 	if base.fields != nil {
 		if v := f.fieldOf(base, x.Sel.Name); v != nil {
 			return v
@@ -766,6 +801,12 @@ func (f *ftrans) zero(t *typ) *val {
 
 func (f *ftrans) composite(x *ast.CompositeLit) *val {
 	t := f.p.typeOfExpr(x.Type)
+	if r, ok := recordOf(t); ok && t.k == kStruct {
+		return f.recordLiteral(x, t, r)
+	}
+	if t.k == kList {
+		return f.listLiteral(x, t)
+	}
 	switch t.k {
 	case kBytes:
 		// []byte{a, b, ...}: a fresh slice
